@@ -565,7 +565,9 @@ func (g *Gen) dirUse(exclude []string) string {
 // inputLiteral builds an input-object literal that gives every required field
 // of the input type a value (ok is false when a required field has a type the
 // generator cannot write a value for).
-func (g *Gen) inputLiteral(in *TInfo) (string, bool) {
+func (g *Gen) inputLiteral(in *TInfo) (string, bool) { return g.inputLiteralDepth(in, 0) }
+
+func (g *Gen) inputLiteralDepth(in *TInfo, depth int) (string, bool) {
 	var parts []string
 	for _, f := range in.Fields {
 		typ := f.Type
@@ -573,8 +575,8 @@ func (g *Gen) inputLiteral(in *TInfo) (string, bool) {
 			// optional: mostly left out; a nested input object is sometimes given
 			// as an empty-ish literal (validation fills its defaults in)
 			b := strings.Trim(typ, "[]!")
-			if nested := g.St.ByName[b]; nested != nil && nested.Kind == "input" && nested != in && !strings.Contains(typ, "[") && g.T.Bool(1, 2) {
-				if nl, ok := g.inputLiteral(nested); ok {
+			if nested := g.St.ByName[b]; nested != nil && nested.Kind == "input" && depth < 2 && !strings.Contains(typ, "[") && g.T.Bool(1, 2) {
+				if nl, ok := g.inputLiteralDepth(nested, depth+1); ok {
 					parts = append(parts, f.Name+": "+nl)
 				}
 			}
@@ -582,9 +584,9 @@ func (g *Gen) inputLiteral(in *TInfo) (string, bool) {
 		}
 		base := strings.Trim(typ, "[]!")
 		var v string
-		if nested := g.St.ByName[base]; nested != nil && nested.Kind == "input" && nested != in {
+		if nested := g.St.ByName[base]; nested != nil && nested.Kind == "input" && depth < 3 {
 			// a nested input object, given as a literal of its own
-			if nl, ok := g.inputLiteral(nested); ok {
+			if nl, ok := g.inputLiteralDepth(nested, depth+1); ok {
 				v = nl
 				for i := 0; i < strings.Count(typ, "["); i++ {
 					v = "[" + v + "]"
@@ -857,7 +859,13 @@ func (g *Gen) Valid() Fragment {
 				continue
 			}
 			// exactly one field per extend block: Input.Extend iterates a map
-			return Fragment{Kind: "extend_input", Text: fmt.Sprintf("extend input %s {\n  %s: Int\n}\n", t.Name, g.fresh("k")), Mutates: true}
+			// (half of them with a default: every literal of that type written
+			// earlier gains the field when it is coerced again)
+			def := ""
+			if g.T.Bool(1, 2) {
+				def = fmt.Sprintf(" = %d", 1+g.T.Draw(9))
+			}
+			return Fragment{Kind: "extend_input", Text: fmt.Sprintf("extend input %s {\n  %s: Int%s\n}\n", t.Name, g.fresh("k"), def), Mutates: true}
 		case 13:
 			t := g.pickExisting("interface")
 			if t == nil || g.St.hasImplementers(t.Name) || g.pendingImplements(t.Name) {
